@@ -507,6 +507,17 @@ func tkSameStrings(a, b []string) bool {
 	return true
 }
 
+// tkMalformedAnswer: does the case's token carry an element of the wrong shape (as opposed to a well-formed token for somebody else)?
+func tkMalformedAnswer(tag string) bool {
+	for _, m := range []string{"aud=empty-list", "aud=null", "aud=number", "aud=object", "aud=list-numbers", "aud=bool", "aud=azp-number", "aud=azp-object",
+		"aud=azp-list-numbers", "aud=azp-bool", "sign=none", "sign=nonesig", "exp=absent"} {
+		if strings.Contains(tag, m) {
+			return true
+		}
+	}
+	return false
+}
+
 // monitorSession: property C04 on one created session.  path: cb | rf | br | ex
 func (t *tkRun) monitorSession(path string, f tkFacts, audience string, id tkIdentity, where string) {
 	m := t.monCfg()
@@ -515,6 +526,11 @@ func (t *tkRun) monitorSession(path string, f tkFacts, audience string, id tkIde
 		"cfg": fmt.Sprintf("%+v", t.e.cfg), "profile": t.cur.profile}
 	bad := func(what string) {
 		t.c.violation("C04", what+" ["+path+", observed at "+where+"]", input)
+		if tkMalformedAnswer(t.cur.tag) {
+			// the provider's answer is MALFORMED (an audience of the wrong JSON type or an empty one, a token without a usable
+			// signature): accepting it is also a failure to fail closed
+			t.c.violation("C14", "a session was created from a MALFORMED identity-provider answer: "+what+" ["+path+", observed at "+where+"]", input)
+		}
 		if path == "br" || path == "ex" {
 			// the bearer token was the request's only credential and the request was answered as authenticated
 			t.c.violation("C01", "a request whose only credential is a bearer token that must not be accepted was treated as authenticated: "+what+" ["+path+", observed at "+where+"]", input)
